@@ -238,7 +238,8 @@ def _history(ndim, stem, ops):
         if ds is not prev:
             if o in (0, 4, 5, 6, 7, 8, 9, 10):
                 earlier.append((prev, prev.copy()))
-        elif not i and o in (4, 5, 6, 7, 8, 9, 10) and not any(s == 0 for s in prev.shape):
+        elif (not i and o in (4, 5, 6, 7, 8, 9, 10) and not any(s == 0 for s in prev.shape)
+              and not (o == 6 and prev.shape[min(a, prev.ndim - 1)] < 2)):     # apply() skips that crop
             return False               # the copying variant must hand out a new object, not the source itself
         # later operations (in place or not) on the result never reach back into an earlier source
         for src, snap in earlier:
